@@ -212,7 +212,7 @@ def gen_case(rng, pid, tier):
             al = rng.choice(allocs)
             if al[2]:
                 ops.append(['alloctraits', al[0], rng.choice([0, 2, 4])])
-        elif r < 0.885 and alive_srv and live:
+        elif r < 0.92 and alive_srv and live:
             # a server stops being up while an instance asks for a lease renewal that will fail later
             ops.append(['state', rng.choice(alive_srv), rng.choice(['frozen', 'frozen', 'down'])])
             for a_ in rng.sample(live, min(len(live), rng.randint(1, 3))):
